@@ -10,7 +10,13 @@ macro_rules! hmod {
 }
 
 hmod!(pub(crate) common, "common.rs");
+hmod!(pub(crate) bfs, "bfs.rs");
+hmod!(pub(crate) explore, "explore.rs");
+#[cfg(feature = "shuttle")]
+hmod!(pub(crate) sched, "sched.rs");
+#[cfg(not(feature = "shuttle"))]
 hmod!(pub(crate) c08, "c08.rs");
+#[cfg(not(feature = "shuttle"))]
 hmod!(pub(crate) c08b, "c08b.rs");
 
 #[test]
